@@ -114,8 +114,15 @@ def _module_globals():
     return out
 
 
+def _process_state():
+    """State that lives in the interpreter rather than in a plasTeX class or module but is written
+    by plasTeX while it processes a document (file lookups go through $TEXINPUTS)."""
+    return {"os.environ": _simple(dict(os.environ)), "os.getcwd": os.getcwd()}
+
+
 def snapshot():
     snap = _module_globals()
+    snap["<process>"] = _process_state()
     for key, cls in _classes().items():
         d = {}
         members = []
@@ -151,8 +158,12 @@ _ID = re.compile(r"a\d{10}")
 _ADDR = re.compile(r"0x[0-9a-fA-F]{6,}")
 
 
+_DOCDIR = re.compile(r"[^\s\"'<>]*filedoc-\d+-\d+")
+
+
 def canon(x):
     ids = {}
+    x = _DOCDIR.sub("DOCDIR", x)       # the directory of a file-based document (named after the pid)
     x = _ID.sub(lambda m: ids.setdefault(m.group(0), "ID%d" % len(ids)), x)
     return _ADDR.sub("0xADDR", x)
 
@@ -176,11 +187,30 @@ def process(doc, render=False):
         for sect, opts in overrides.items():
             for k, v in opts.items():
                 cfg[sect][k] = v
-        tex = TeX(TeXDocument(config=cfg))
+        tdoc = TeXDocument(config=cfg)
     else:
-        tex = TeX()
-    tex.disableLogging()
-    tex.input(src)
+        tdoc = None
+    if isinstance(doc, dict) and doc.get("asfile"):
+        # the document is a file in a directory of its own (with or without a sibling chapter file)
+        _file_n[0] += 1
+        d = os.path.abspath("filedoc-%d-%d" % (os.getpid(), _file_n[0]))
+        os.makedirs(d)
+        _file_dirs.append(d)
+        with open(os.path.join(d, "main.tex"), "w", encoding="utf-8") as f:
+            f.write(src)
+        if doc.get("sibling"):
+            with open(os.path.join(d, "chapzq.tex"), "w", encoding="utf-8") as f:
+                f.write("Chapter file text mCS.\n")
+        if tdoc is None:
+            from plasTeX import TeXDocument
+            tdoc = TeXDocument()
+        tex = TeX(tdoc, file=os.path.join(d, "main.tex"))
+        tex.disableLogging()
+    else:
+        d = None
+        tex = TeX(tdoc) if tdoc is not None else TeX()
+        tex.disableLogging()
+        tex.input(src)
     doc = tex.parse()
     out = {"xml": canon(doc.toXML())}
     if render:
@@ -189,6 +219,8 @@ def process(doc, render=False):
 
 
 _render_n = [0]
+_file_n = [0]
+_file_dirs = []       # directories of file-based documents; kept until the sequence is over
 
 
 def render_doc(doc):
@@ -243,17 +275,22 @@ def in_child(fn):
 
 def run_sequence(docs, render):
     """Process docs in order in this process; returns per-doc outcome and leaks."""
+    import shutil
     s0 = snapshot()
     outs = []
-    for src in docs:
-        try:
-            o = process(src, render)
-            o["raised"] = None
-        except BaseException as exc:  # noqa
-            e = RealError(exc, sys.exc_info()[2])
-            o = {"xml": None, "raised": e.key}
-        o["leaks"] = snapshot_diff(s0, snapshot())
-        outs.append(o)
+    try:
+        for src in docs:
+            try:
+                o = process(src, render)
+                o["raised"] = None
+            except BaseException as exc:  # noqa
+                e = RealError(exc, sys.exc_info()[2])
+                o = {"xml": None, "raised": e.key}
+            o["leaks"] = snapshot_diff(s0, snapshot())
+            outs.append(o)
+    finally:
+        while _file_dirs:
+            shutil.rmtree(_file_dirs.pop(), ignore_errors=True)
     return outs
 
 
@@ -308,7 +345,17 @@ BODY = [
     F("word\\index{alpha} more\\index{beta!gamma} mAK\n\n", touch=["index"], pkgs=["makeidx"]),
     F("\\printindex\n", touch=["index"], observe=["index"], pkgs=["makeidx"], pre="\\makeindex\n"),
     F("cite \\cite{k1} mAL\n\\begin{thebibliography}{9}\\bibitem{k1} Author mAM\\end{thebibliography}\n",
-      observe=["bib"]),
+      touch=["bib"], observe=["bib"]),
+    F("cite \\cite{k1} and \\cite{k2} mCK\n\\begin{thebibliography}{9}\\bibitem{k2} Zed mCL\\bibitem{k1} Author mCM"
+      "\\end{thebibliography}\n", touch=["bib"], observe=["bib"]),
+    F("\\begin{thebibliography}{9}\\bibitem{k0} Nul mCN\\bibitem{k2} Zed mCL\\bibitem{only:3} Other mBG"
+      "\\end{thebibliography} cites \\cite{k2,only:3} mCO\n", touch=["bib", "labels"], observe=["bib"]),
+    # file lookups (relative to the document's own directory when it is a file)
+    F("\\IfFileExists{no-such-file-zq.tex}{found mCP}{missing mCQ}\n\n", touch=["lookup"], observe=["lookup"]),
+    F("\\IfFileExists{chapzq.tex}{chap found mCR}{chap missing mCT}\n\n", touch=["lookup"], observe=["lookup"]),
+    F("\\InputIfFileExists{chapzq}{yes mCU}{no mCV} \\InputIfFileExists{chapzq.tex}{yes mCW}{no mCX}\n\n",
+      touch=["lookup"], observe=["lookup"]),
+    F("\\input{chapzq} after mCY\n\n", touch=["lookup"], observe=["lookup"]),
     F("\\appendix\n", touch=["appendix"]),
     F("text\\footnote{note mAN} more\n\n"),
     F("\\begin{verbatim}\nraw $ % \\x mAO\n\\end{verbatim}\n"),
@@ -389,7 +436,7 @@ ENDINGS = [
 OBSERVED_BY = {"register": "register", "math-open": "math", "list-open": "list", "index": "index",
                "class:article": "index", "class:book": "index", "class:report": "index",
                "ifthen": "math", "openout": "register", "counters": "labels", "appendix": "labels",
-               "labels": "labels", "config": "text", "relatives": "relatives", "ifx": "register"}
+               "labels": "labels", "config": "text", "bib": "bib", "lookup": "lookup", "relatives": "relatives", "ifx": "register"}
 
 
 @st.composite
@@ -421,7 +468,9 @@ def document(draw, well_formed=False):
            "".join(pre) + "\\title{Title mT0}\n\\begin{document}\n" + "".join(body) + end[1])
     touch = sorted(set(["class:" + cls] + [t for fr in frs for t in fr["touch"]] + end[2]))
     observe = sorted(set([o for fr in frs for o in fr["observe"]]))
-    return {"src": src, "touch": touch, "observe": observe, "ending": end[0]}
+    mode = draw(st.sampled_from(["string", "string", "file", "file+sibling"]))
+    return {"src": src, "touch": touch, "observe": observe, "ending": end[0],
+            "asfile": mode != "string", "sibling": mode == "file+sibling"}
 
 
 CONFIGS = [
@@ -451,7 +500,8 @@ def sequence(draw):
     bcfg = draw(st.sampled_from(CONFIGS[:6]))
     if mode == 0:
         bcfg = {}
-    return {"A": [{"src": a["src"], "cfg": c} for a, c in zip(A, cfgs)], "B": {"src": B["src"], "cfg": bcfg},
+    pick = lambda d: dict((k, d[k]) for k in ("src", "asfile", "sibling"))     # noqa: E731
+    return {"A": [dict(pick(a), cfg=c) for a, c in zip(A, cfgs)], "B": dict(pick(B), cfg=bcfg),
             "meta": {"touch": sorted(set([t for a in A for t in a["touch"]] + (["config"] if any(cfgs) else []))),
                      "observe": B["observe"],
                      "endings": [a["ending"] for a in A], "b_ending": B["ending"], "idempotence": mode == 0}}
@@ -469,6 +519,10 @@ def make_check(render):
                 ["A-ending:" + e for e in sorted(set(meta.get("endings", []))) if e != "closed"]
         if meta.get("idempotence"):
             feats.append("B;B")
+        if any(isinstance(a, dict) and a.get("asfile") for a in A):
+            feats.append("A-is-a-file")
+        if isinstance(B, dict) and B.get("asfile"):
+            feats.append("B-is-a-file")
         status, ref = in_child(lambda: run_sequence([B], render))
         if status != "ok":
             return fail("harness:reference-child-" + status, {"info": ref})
@@ -574,7 +628,10 @@ def pairs(tier):
     def fn(n):
         i, j = ai[n // len(bj)], bj[n % len(bj)]
         ca, cb = classes[(i + j) % 3], classes[(i + 2 * j + 1) % 3]
-        return {"A": [{"src": _single(BODY[i], ca), "cfg": {}}], "B": {"src": _single(BODY[j], cb), "cfg": {}},
+        # documents that look files up are files themselves: A next to a chapter file, B without one
+        fa, fb = "lookup" in BODY[i]["touch"], "lookup" in BODY[j]["observe"]
+        return {"A": [{"src": _single(BODY[i], ca), "cfg": {}, "asfile": fa, "sibling": fa}],
+                "B": {"src": _single(BODY[j], cb), "cfg": {}, "asfile": fb, "sibling": False},
                 "meta": {"touch": BODY[i]["touch"] + ["class:" + ca], "observe": BODY[j]["observe"],
                          "endings": ["closed"], "b_ending": "closed", "idempotence": False, "pair": [i, j]}}
     return len(ai) * len(bj), fn
@@ -582,8 +639,9 @@ def pairs(tier):
 
 RULE = ("sequences A1..Ak;B (k<=4) of documents assembled from a fragment library (classes article/book/report, "
         "registers, \\setlength, math in all forms, lists, tables, ifthen, index, bibliography, theorems, \\openout, "
-        "catcodes, counters, packages; A_i may end with math/list/group left open); B alone in a fresh fork vs B "
-        "after A*, canonicalised toXML compared, class-attribute monitor after every document. Non-trivial: k>=1 "
+        "catcodes, counters, packages, file lookups; documents are strings or files in a directory of their own, with or "
+        "without a sibling chapter file; A_i may end with math/list/group left open); B alone in a fresh fork vs B "
+        "after A*, canonicalised toXML compared, monitor of class attributes, module containers, os.environ and cwd after every document. Non-trivial: k>=1 "
         "and some A_i touches a state holder that B observes. Distinct by sha1 of the sources.")
 
 STREAMS = [
